@@ -445,7 +445,14 @@ def run(chk):
     a8 = p.adts.get(CIL)
     if chk.require("R8 id length", "R8|CredentialIdLength", a8, CIL, "CredentialIdLength not found"):
         chk.ob("R8 id length", "R8|field-private", not a8["variants"][0]["fields"][0]["pub"], CIL, "tuple field visibility: %s" % a8["variants"][0]["fields"][0]["vis"])
+        # the type's own bounds: its associated constants named MIN / MAX — or, if they go by other names, the smallest and
+        # the largest of its associated constants (there is a default in between)
         mn, mx = p.const_bits(CIL + "::MIN"), p.const_bits(CIL + "::MAX")
+        if mn is None or mx is None:
+            pre = p.adts.resolve(CIL) + "::"
+            vals = sorted(int(k["bits"]) for path_, k in p.consts.items() if path_.startswith(pre) and k.get("bits") is not None and str(k.get("ty")) == "u8")
+            if len(vals) >= 2:
+                mn, mx = vals[0], vals[-1]
         chk.ob("R8 id length", "R8|bounds", (mn, mx) == (16, 64), CIL, "MIN=%s MAX=%s" % (mn, mx))
         fr = p.method(CIL, "from", trait="core::convert::From")
         if fr is not None:
